@@ -4,6 +4,7 @@ import (
 	"encoding/json"
 	"fmt"
 	"math"
+	"strings"
 
 	"github.com/couchbase/gocbcore/v10"
 
@@ -229,4 +230,147 @@ func rollbackMain(p RollbackParams) {
 		}
 	}
 	vrt.SetOutcome(fmt.Sprintf("%v|%v", second[:6], got))
+}
+
+// c06_reopen: a stream that has been running ends with a transient cause; the re-open is answered with a
+// rollback, so the SAME observer (with its old snapshot) goes through the catch-up phase on a new branch.
+// Every offset handed out afterwards must carry the snapshot the server announced for that very event on
+// the new branch, and an item outside its announced snapshot must stop the client.
+func init() {
+	scenarios["c06_reopen"] = func(raw json.RawMessage) *vrt.Scenario {
+		return &vrt.Scenario{Name: "c06_reopen", Main: reopenRollbackMain, FreeChoices: true, Classify: func(r *vrt.Result) []string {
+			if strings.Contains(r.Outcome, "expect-crash") {
+				if r.Status == vrt.StatusCrash && strings.Contains(r.Crash.Value, "not in snapshot") {
+					return nil
+				}
+				return []string{"an item outside its announced snapshot (after re-open with rollback) did not stop the client: status " + r.Status.String()}
+			}
+			if r.Status != vrt.StatusOK {
+				m := "status " + r.Status.String()
+				if r.Crash != nil {
+					m += ": " + r.Crash.Value
+				}
+				return []string{m}
+			}
+			return nil
+		}}
+	}
+}
+
+func reopenRollbackMain() {
+	resetGlobals()
+	const F = 5
+	R := uint64(vrt.Choose(F+1, true, "R"))
+	layout := vrt.Choose(4, true, "new-branch-layout")
+	malformed := vrt.Choose(2, true, "malformed") == 1
+	o := EnvOpts{Vbs: 1, CheckpointType: "manual", WrapMeta: true}
+	c := NewCluster(&o)
+	const oldUUID, newUUID = 900, 901
+	c.Vb[0].Failover = []gocbcore.FailoverEntry{{VbUUID: oldUUID, SeqNo: 0}}
+	c.Append(0, marker(1, 100))
+	for s := uint64(1); s <= F; s++ {
+		c.Append(0, symbolPacket("M", s))
+	}
+	e := NewEnv(c, o)
+	e.Cons.AutoAck = true
+	e.Stream.Open()
+	c.WaitIdle()
+	if len(e.Cons.Events) != F {
+		vrt.Failf("harness: %d events", len(e.Cons.Events))
+		return
+	}
+	item := func(s uint64) gocbcore.SimPacket { return docPacket("mutation", s, fmt.Sprintf("new%d", s), "after", 0) }
+	type snap struct{ a, b uint64 }
+	announced := map[uint64]snap{}
+	var log []gocbcore.SimPacket
+	addSnap := func(a, b uint64, items ...uint64) {
+		log = append(log, marker(a, b))
+		for _, s := range items {
+			log = append(log, item(s))
+			announced[s] = snap{a, b}
+		}
+	}
+	switch layout {
+	case 0: // one snapshot straddling F
+		var its []uint64
+		for s := R + 1; s <= F+3; s++ {
+			its = append(its, s)
+		}
+		addSnap(R+1, F+3, its...)
+	case 1: // a snapshot ending exactly at F, then a new one
+		if R < F {
+			var its []uint64
+			for s := R + 1; s <= F; s++ {
+				its = append(its, s)
+			}
+			addSnap(R+1, F, its...)
+		}
+		addSnap(F+1, F+2, F+1, F+2)
+	case 2: // a snapshot starting exactly at F
+		if R+1 <= F-1 {
+			var its []uint64
+			for s := R + 1; s <= F-1; s++ {
+				its = append(its, s)
+			}
+			addSnap(R+1, F-1, its...)
+		}
+		if R < F {
+			addSnap(F, F+1, F, F+1)
+		} else {
+			addSnap(F+1, F+1, F+1)
+		}
+		addSnap(F+2, F+9, F+4)
+	case 3: // sparse: wide snapshot below F with no items, then items above
+		if R+1 <= F {
+			addSnap(R+1, F)
+		}
+		addSnap(F+1, F+20, F+7, F+20)
+	}
+	outcome := fmt.Sprintf("R=%d layout=%d", R, layout)
+	if malformed {
+		// an item beyond the last announced snapshot but inside the OLD stream's [1,100]
+		last := log[len(log)-1]
+		bad := item(last.Seq + 30)
+		bad.Raw = true
+		log = append(log, bad)
+		outcome += " expect-crash"
+	}
+	vrt.SetOutcome(outcome)
+	c.Vb[0].Opens = []gocbcore.SimOpen{{Kind: "rollback", Rollback: R, SwapLog: log, SwapFailover: []gocbcore.FailoverEntry{{VbUUID: newUUID, SeqNo: 0}}}}
+	before := len(e.Cons.Events)
+	c.EndStream(0, gocbcore.ErrDCPStreamStateChanged)
+	vrt.Sleep(3e9)
+	vrt.Quiesce()
+	c.WaitIdle()
+	for _, d := range e.Cons.Events[before:] {
+		if d.Seq <= F {
+			vrt.Failf("%s: event %d at or below the position already reached was shown again", outcome, d.Seq)
+		}
+		want, ok := announced[d.Seq]
+		if !ok {
+			vrt.Failf("%s: event %d was never sent on the new branch", outcome, d.Seq)
+			continue
+		}
+		if d.Snap != [2]uint64{want.a, want.b} || uint64(d.Offset.VbUUID) != newUUID || d.Offset.SeqNo != d.Seq {
+			vrt.Failf("%s: event %d carries offset (snap %v, vbUUID %d, seq %d); the server announced snapshot [%d,%d] on branch %d", outcome, d.Seq, d.Snap, d.Offset.VbUUID, d.Offset.SeqNo, want.a, want.b, newUUID)
+		}
+		if !(d.Snap[0] <= d.Seq && d.Seq <= d.Snap[1]) {
+			vrt.Failf("%s: event %d offset violates snapStart <= seq <= snapEnd: %v", outcome, d.Seq, d.Snap)
+		}
+	}
+	var wantSeqs, got []uint64
+	for _, pk := range log {
+		if isDoc(pk.Kind) && pk.Seq > F && !pk.Raw {
+			wantSeqs = append(wantSeqs, pk.Seq)
+		}
+	}
+	for _, d := range e.Cons.Events[before:] {
+		got = append(got, d.Seq)
+	}
+	if !malformed && fmt.Sprint(got) != fmt.Sprint(wantSeqs) {
+		vrt.Failf("%s: after the re-open the consumer saw %v, want %v", outcome, got, wantSeqs)
+	}
+	if malformed {
+		vrt.Failf("%s: an item outside its announced snapshot did not stop the client", outcome)
+	}
 }
